@@ -158,7 +158,7 @@ theorem C09_genParser_init_WFc {syn : List SProd} {S0 : PSymbols} (ids : List St
   have : i = ⟨0, 0, "␚"⟩ := by simpa using hi
   subst this
   have h1 : "␚" ∈ S0.typeMap := (newSymbols_mono h).2 _ (by simp)
-  exact List.mem_cons_of_mem _ (mem_foldl_addNoDup.2 (Or.inl h1))
+  exact List.mem_cons_of_mem _ (foldl_addNoDup_mem_iff.2 (Or.inl h1))
 
 /-- `goto` kernels inherit well-formedness from a set whose look-aheads are in the universe
     (e.g. a closure, by `C09_closure_universe`) -/
@@ -309,5 +309,32 @@ theorem C09_closure_la_hypothesis_needed :
     simp only [closure_eq_I, closureStep_eq_I]
     decide +kernel
   exact h1.2.2 (h _ h1.1 _ h1.2.1)
+
+/-! ### (C) lexer-side ε-closure `emoves` — PARTIAL
+Completeness of the depth-first work list relative to a supplied finite universe.  Missing for the
+unconditional statement: for an arbitrary `LexCtx` and start item, the existence of an
+`emoveStep`-closed universe `U` with `1 + |U| * (D + 1) ≤ (C.fuel + 2)^2` (a count of the positions
+of the pattern tree against `LPat.size`).  For a concrete lexer `U` is checked by `decide`. -/
+
+theorem C09_emoves_complete_partial {C : LexCtx} {i : LItem} {U : List LItem} {D : Nat}
+    (hU : EUniv C U D) (hi : i ∈ U)
+    (hfuel : 1 + U.length * (D + 1) ≤ (C.fuel + 2) * (C.fuel + 2)) :
+    ∀ y, EReach C i y → C.isBasic y = true → y ∈ emoves C i :=
+  emoves_complete_of_universe hU hi hfuel
+
+/-- `t : { 'a' | [ 'b' ] } ;` — a repetition whose body has a nullable alternative (the ε-cycle
+    that needs the visited set) -/
+def c09LexC : LexCtx :=
+  { prods := #[{ kind := .tok, id := "t",
+                 pat := .mk [.mk [.rep (.mk [.mk [.lit 97], .mk [.opt (.mk [.mk [.lit 98]])]])]] }] }
+
+def c09LexU : List LItem :=
+  [⟨0, [0]⟩, ⟨0, [0, 0]⟩, ⟨0, [0, 0, 0]⟩, ⟨0, [0, 0, 0, 0]⟩, ⟨0, [0, 0, 1, 0]⟩, ⟨0, [0, 1]⟩,
+   ⟨0, [0, 0, 1, 0, 0]⟩, ⟨0, [1]⟩, ⟨0, [0, 0, 1, 0, 0, 0]⟩, ⟨0, [0, 0, 1, 1]⟩, ⟨0, [0, 0, 2]⟩]
+
+example : emoves c09LexC ⟨0, [0]⟩ = [⟨0, [1]⟩, ⟨0, [0, 0, 0, 0]⟩, ⟨0, [0, 0, 1, 0, 0, 0]⟩] := by decide
+
+example : ∀ y, EReach c09LexC ⟨0, [0]⟩ y → c09LexC.isBasic y = true → y ∈ emoves c09LexC ⟨0, [0]⟩ :=
+  C09_emoves_complete_partial (U := c09LexU) (D := 3) (by decide) (by decide) (by decide)
 
 end Gocc
